@@ -25,6 +25,7 @@
     cell <cmd s> <code> <neg|zero|pos>   -> none | <Name>     (with today's handlers)
     sdrshow <type>                 -> none | <Name>           (today's handlers, today's sdr.py classes)
     linkstate <0|1>                -> none | <Name>
+    showstate <0|1>                -> none | <Name>           (sdr_show's state line; 0 = reading/state unavailable)
     entry <idx> | ientry <idx>     -> ok | AttributeError <ref> | TypeError <ref>   (shipped table | intended table)
     unresolved                     -> i:j i:j …  ( - if none)
     chassis <word>                 -> none | some <code>   (table entry "chassis power <word>" -> method -> option)
@@ -119,7 +120,7 @@ def probe : String :=
   s!"closeInside={b Gen.Cli.shape.closeInside} escaping={commaOr ((escaping Gen.Cli.exits).map Raised.name)} " ++
   s!"int10={commaOr ((base10Args Gen.Cli.argConvs).map fun (e, k) => s!"{e}:{k}")} " ++
   s!"optint10={commaOr ((base10Opts Gen.Cli.shape.rules).map toString)} " ++
-  s!"link={b h.linkNoneGuard} idstr={b h.idStringGuard} entity={b h.entityGuard} " ++
+  s!"link={b h.linkNoneGuard} idstr={b h.idStringGuard} entity={b h.entityGuard} state={b h.stateNoneGuard} " ++
   "catch=" ++ (if h.convCatch.isEmpty then "-" else
     ";".intercalate (h.convCatch.map fun (c, l) => showStr (ofString c) ++ ":" ++ (if l.isEmpty then "-" else "+".intercalate l)))
 
@@ -227,6 +228,7 @@ def handle (line : String) : String :=
       optName (sdrShowRaises Gen.Cli.handlers a.1 a.2)
     | none => "bad-op"
   | ["linkstate", x] => optName (linkStateRaises Gen.Cli.handlers (x == "1"))
+  | ["showstate", x] => optName (sdrStateRaises Gen.Cli.handlers (x == "1"))
   | ["entry", i] =>
     match i.toNat? with
     | some i => entryRes Gen.Cli.commands i
